@@ -256,6 +256,16 @@ func depRoundTrip(t dep.Type, m mset) (obs string, in, quoted bool) {
 	if len(g.Edges) != 1 || !g.Edges[0].Type.Equal(t) {
 		return fmt.Sprintf("dependency type %s written as %q parses back (ParseResolve) as %v", t, txt, g.Edges), true, q
 	}
+	// A parsed type is the reader's own: changing it must not change what the
+	// same text reads as the next time.
+	g.Edges[0].Type.AddAttr(dep.KnownAs, "changed-after-parsing")
+	g.Edges[0].Type.AddAttr(dep.Scope, "changed-after-parsing")
+	g.Edges[0].Type.AddAttr(dep.Dev, "")
+	if g2, err := schema.ParseResolve("r 1\n\t"+txt+"|d@* 1\n", resolve.NPM); err != nil || len(g2.Edges) != 1 || !g2.Edges[0].Type.Equal(t) {
+		return fmt.Sprintf("dependency type %s written as %q reads differently the second time, after the first result was modified: %v %v", t, txt, g2, err), true, q
+	} else if a, ok := g2.Edges[0].Type.GetAttr(dep.KnownAs); ok && a == "changed-after-parsing" && !t.HasAttr(dep.KnownAs) {
+		return fmt.Sprintf("dependency type %s written as %q: the second reading carries an attribute set on the first result", t, txt), true, q
+	}
 	// through the universe schema ('@' separates the package name from the
 	// requirement on an import line, so values containing it have no text form there)
 	if strings.Contains(txt, "@") {
